@@ -199,6 +199,10 @@ def transmitted(schema, att, value, locs, typed=True, top=True):
         if typed:
             if name not in out and name in req and p and p != "Bytes":
                 out[name] = False if p == "Boolean" else "" if p == "String" else 0
+            if fa.get("has_default") and name in out and out[name] in (0, 0.0, "", False) and p and p != "Bytes":
+                # the generated code cannot always tell a zero value from unset and may substitute the default,
+                # depending on location and side (recorded under C02/C03): not judged here
+                raise Skip("zero value of a defaulted attribute")
             if name not in req and out.get(name) in ("", [], {}) and (p == "Bytes" or ft.get("array") or ft.get("map_key")):
                 out[name] = None
         if loc in ("cookie", "path") and out.get(name) == "":
@@ -443,10 +447,13 @@ def plan(b, seed, per_valid, cap):
                     continue
                 if p is not None and not path_safe(b.schema, m["payload"], p, locs):
                     continue
+                if p is not None:
+                    drop_default_zeros(b.schema, m["payload"], p)
                 res = e2e.gen_value(b.schema, m["result"], rng, "body") if m.get("result") else None
                 if m.get("result") and res is None:
                     continue
                 if isinstance(res, dict):
+                    drop_default_zeros(b.schema, m["result"], res)
                     for an, loc in rlocs.items():  # header/cookie transport of odd strings is C03's subject
                         if isinstance(res.get(an), str) and not re.match(r"^[A-Za-z0-9._-]+$", res[an]):
                             res[an] = "abc"
@@ -470,11 +477,19 @@ SAFE_SEG = re.compile(r"^[A-Za-z0-9._~-]+$")
 
 
 def path_safe(schema, att, p, locs):
-    """path segments the generated client is known to mis-encode (C02 findings) are replaced"""
+    """strings in path segments, headers and cookies that the generated client or net/http are known
+    to mis-encode or sanitise (C02 findings) are replaced by plain ones"""
     fields = dict(schema.fields(att))
     for name, loc in locs.items():
         v = p.get(name)
-        if loc != "path" or not isinstance(v, str) or SAFE_SEG.match(v):
+        if loc in ("header", "cookie") and isinstance(v, list) and all(isinstance(x, str) for x in v):
+            ev = eff_val(schema, schema.resolve(fields[name])["type"]["array"])
+            if not (ev.get("format") or ev.get("enum") or ev.get("pattern")):
+                p[name] = [x if SAFE_SEG.match(x) else "abc"[:max(ev.get("minlen", 1), min(3, ev.get("maxlen", 3)))] or "a" for x in v]
+            continue
+        if loc not in ("path", "header", "cookie") or not isinstance(v, str) or SAFE_SEG.match(v):
+            continue
+        if schema.resolve(fields[name]).get("type", {}).get("prim") == "Bytes":
             continue
         ev = eff_val(schema, fields[name])
         if ev.get("format") or ev.get("enum"):
@@ -486,6 +501,25 @@ def path_safe(schema, att, p, locs):
         else:
             return False
     return True
+
+
+def drop_default_zeros(schema, att, v):
+    """unset the defaulted attributes whose generated value is the zero value (see `transmitted`)"""
+    a = schema.resolve(att) if att else {}
+    t = a.get("type", {})
+    if isinstance(v, list) and t.get("array"):
+        for x in v:
+            drop_default_zeros(schema, t["array"], x)
+    elif isinstance(v, dict) and t.get("map_key"):
+        for x in v.values():
+            drop_default_zeros(schema, t["map_elem"], x)
+    elif isinstance(v, dict):
+        for name, fa in schema.fields(a):
+            if name in v and fa.get("has_default") and v[name] in (0, 0.0, "", False):
+                del v[name]
+            elif name in v:
+                drop_default_zeros(schema, fa, v[name])
+    return v
 
 
 def model_line(b, att, value, locs, typed=True):
@@ -500,6 +534,10 @@ def raw_plan(b, cmds, meta, obs, seed, cap):
         if side != "request" or label != "valid" or not o.get("server_called"):
             continue
         script = cmd.get("script")
+        try:
+            transmitted(b.schema, m["payload"], val, locs)
+        except Skip:
+            continue
         w = o.get("wire") or {}
         rng = e2e.rng_for(seed, "c04raw", b.index, s["name"], m["name"], json.dumps(val, sort_keys=True))
         headers = {k: v for k, v in (w.get("headers") or {}).items() if k not in ("Content-Length", "Host")}
@@ -588,7 +626,7 @@ def absent_optional_collection(schema, att, v):
         for name, fa in schema.fields(a):
             ft = schema.resolve(fa).get("type", {})
             if v.get(name) is None:
-                if name not in req and (ft.get("array") or ft.get("map_key")) and eff_val(schema, fa).get("minlen", 0) >= 1:
+                if name not in req and (ft.get("array") or ft.get("map_key") or ft.get("prim") == "Bytes") and eff_val(schema, fa).get("minlen", 0) >= 1:
                     return True
             elif absent_optional_collection(schema, fa, v[name]):
                 return True
